@@ -90,22 +90,13 @@ Qed.
   zlen_div_cells_sc zlen_coerce_cells : zlen.
 
 (* ---------- the VC tactic ---------- *)
-(* normalise everything but [wp] itself: the continuation stays a folded [wp] on program syntax *)
-Ltac wp_norm k annf :=
-  lazy beta iota zeta delta [wp_leaf wp_while wp_for esafe evalv seq fbody k annf init_store fparams
-     flocals combine app map repeat length Nat.sub get set String.eqb Ascii.eqb Bool.eqb getsc getar
-     getZ getD havoc forall_kind agree find_kind kind_ok same_shape normal brk ret args_safe arg_safe
-     argvals argval wp_targets fname is_sc is_ar alen acols adt adata forall_rets is_leaf];
+(* compute the whole verification condition; value-level operations stay folded *)
+Ltac wp_compute k annf :=
+  lazy beta iota zeta delta [wp wp_leaf wp_while wp_for wp_if esafe evalv seq fbody k annf init_store
+     fparams flocals combine app map repeat length Nat.sub get set String.eqb Ascii.eqb Bool.eqb getsc
+     getar getZ getD havoc forall_kind agree find_kind kind_ok same_shape normal brk ret args_safe
+     arg_safe argvals argval wp_targets fname is_sc is_ar alen acols adt adata forall_rets slice_rows];
   cbn [to_int truthy eval_cmp eval_binop is_flt orb binop_int cmp_int coerce negb].
-
-Ltac wp_step k annf :=
-  lazymatch goal with
-  | |- wp _ _ (SSeq _ _) _ _ => apply wp_seq_intro
-  | |- wp _ _ (SIf _ _ _) _ _ => apply wp_if_intro; wp_norm k annf
-  | |- wp _ _ (SWhile _ _ _) _ _ => apply wp_while_intro; wp_norm k annf
-  | |- wp _ _ (SFor _ _ _ _ _) _ _ => apply wp_for_intro; wp_norm k annf
-  | |- wp _ _ _ _ _ => apply wp_leaf_intro; [reflexivity | wp_norm k annf]
-  end.
 
 (* turn a boolean test on integers into a proposition (ZifyBool is deliberately not used: its
    preprocessing of every boolean hypothesis dominated the proof time) *)
@@ -128,6 +119,9 @@ Ltac simp_hyp H :=
   | context [if ?b then _ else _] =>
       let E := fresh "E" in destruct b eqn:E; simp_hyp E; simp_hyp H
   | ?x = ?x => clear H
+  | _ /\ _ =>
+      let H1 := fresh "H" in let H2 := fresh "H" in
+      destruct H as [H1 H2]; simp_hyp H1; simp_hyp H2
   | _ => b2p H; try (progress autorewrite with zlen in H)
   end.
 
@@ -148,7 +142,6 @@ Ltac vc_leaf := try solve [ exact I | reflexivity | arith ].
 Ltac vc_go k annf :=
   lazymatch goal with
   | |- True => exact I
-  | |- wp _ _ _ _ _ => wp_step k annf; vc_go k annf
   | |- _ /\ _ => split; vc_go k annf
   | |- ?A -> ?B => let H := fresh "H" in intro H; simp_hyp H; vc_go k annf
   | |- forall l : list sval, _ =>
@@ -186,4 +179,4 @@ Qed.
 (* entry point of a per-kernel proof: [Pre] has been destructed and [args] substituted *)
 Ltac safe_start k annf :=
   unfold run; apply run_safe with (ann := annf) (R := fun _ : list value => True);
-  wp_norm k annf.
+  wp_compute k annf.
